@@ -91,22 +91,42 @@ Proof.
   fold (var_count (firstn n l)). fold (var_count l). specialize (IH n). lia.
 Qed.
 
-Definition kf_panics (prefix : N) (layout : list elem) (nvals : N) (data : bytes) : Prop :=
+(* ---------- the function before fix 4b7c32a ---------- *)
+Definition kf_panics_original (prefix : N) (layout : list elem) (nvals : N) (data : bytes) : Prop :=
   data = [] \/
   (nth 0 data 0 = prefix /\ (N.of_nat (length layout) < nvals \/ glen data < kf_size layout)).
 
-(* KeyFormat.Decode panics EXACTLY on an empty key, or on a key with the right
-   prefix that is shorter than the format's fixed size (or when the caller
-   passes more values than the layout has); otherwise it returns, allocating
-   at most the key length. *)
-Lemma kf_decode_spec prefix layout nvals data s : wf_layout layout ->
-  match kf_decode prefix layout nvals data s with
-  | (Ok _, s') => ~ kf_panics prefix layout nvals data /\ s' <= s + glen data
+Lemma elems_ok layout nvals data s : wf_layout layout ->
+  N.of_nat (length layout) <? nvals = false -> glen data <? kf_size layout = false ->
+  match kf_elems (firstn (N.to_nat nvals) layout) data (kf_size layout) 1 s with
+  | (Ok _, s') => s' <= s + glen data
   | (Err _, _) => False
-  | (Panic, _) => kf_panics prefix layout nvals data
+  | (Panic, _) => False
   end.
 Proof.
-  intros Hwf. unfold kf_decode, kf_panics.
+  intros Hwf Hn Hs.
+  pose proof (elems_spec (firstn (N.to_nat nvals) layout) data (kf_size layout) 1 s) as HE.
+  pose proof (kf_fixed_firstn (N.to_nat nvals) layout) as Hf.
+  pose proof (var_count_firstn (N.to_nat nvals) layout) as Hv.
+  unfold wf_layout in Hwf. unfold kf_size in *.
+  assert (var_count (firstn (N.to_nat nvals) layout) = 0 \/ var_count (firstn (N.to_nat nvals) layout) = 1)
+    as Hvc by lia.
+  assert (1 + need (firstn (N.to_nat nvals) layout) data (1 + kf_fixed layout) <= glen data) as Hneed.
+  { unfold need. destruct Hvc as [-> | ->]; lia. }
+  specialize (HE Hneed).
+  destruct (kf_elems (firstn (N.to_nat nvals) layout) data (1 + kf_fixed layout) 1 s) as [[r|x|] s1];
+    try contradiction.
+  destruct Hvc as [E | E]; rewrite E in HE; lia.
+Qed.
+
+Lemma kf_decode_original_spec prefix layout nvals data s : wf_layout layout ->
+  match kf_decode_original prefix layout nvals data s with
+  | (Ok _, s') => ~ kf_panics_original prefix layout nvals data /\ s' <= s + glen data
+  | (Err _, _) => False
+  | (Panic, _) => kf_panics_original prefix layout nvals data
+  end.
+Proof.
+  intros Hwf. unfold kf_decode_original, kf_panics_original.
   destruct data as [|b0 data'] eqn:Hd.
   - cbn. left. reflexivity.
   - rewrite <- Hd. assert (1 <= glen data) as Hlen by (subst; rewrite glen_cons; lia).
@@ -116,25 +136,70 @@ Proof.
     + apply N.eqb_eq in Hp.
       destruct (N.of_nat (length layout) <? nvals) eqn:Hn; [cbn; right; split; [exact Hp|left; lia]|].
       destruct (glen data <? kf_size layout) eqn:Hs; [cbn; right; split; [exact Hp|right; lia]|].
-      pose proof (elems_spec (firstn (N.to_nat nvals) layout) data (kf_size layout) 1 s) as HE.
-      pose proof (kf_fixed_firstn (N.to_nat nvals) layout) as Hf.
-      pose proof (var_count_firstn (N.to_nat nvals) layout) as Hv.
-      unfold wf_layout in Hwf. unfold kf_size in *.
-      assert (1 + need (firstn (N.to_nat nvals) layout) data (1 + kf_fixed layout) <= glen data) as Hneed.
-      { unfold need.
-        assert (var_count (firstn (N.to_nat nvals) layout) = 0 \/ var_count (firstn (N.to_nat nvals) layout) = 1)
-          as [-> | ->] by lia; lia. }
-      specialize (HE Hneed).
-      destruct (kf_elems (firstn (N.to_nat nvals) layout) data (1 + kf_fixed layout) 1 s) as [[r|x|] s1];
+      pose proof (elems_ok layout nvals data s Hwf Hn Hs) as HE.
+      destruct (kf_elems (firstn (N.to_nat nvals) layout) data (kf_size layout) 1 s) as [[r|x|] s1];
         try contradiction.
-      split.
-      * intros [Hnil | (_ & [H1 | H2])]; [subst; discriminate | lia | lia].
-      * assert (var_count (firstn (N.to_nat nvals) layout) = 0 \/ var_count (firstn (N.to_nat nvals) layout) = 1)
-          as [E | E] by lia; rewrite E in HE; lia.
+      split; [|exact HE].
+      intros [Hnil | (_ & [H1 | H2])]; [subst; discriminate | lia | lia].
     + cbn. split; [|lia]. apply N.eqb_neq in Hp.
       intros [Hnil | (Hq & _)]; [subst; discriminate | contradiction].
 Qed.
 
+Lemma keyformat_decode_original_panics_iff_l : forall prefix layout nvals data s, wf_layout layout ->
+  (fst (kf_decode_original prefix layout nvals data s) = Panic <->
+   kf_panics_original prefix layout nvals data).
+Proof.
+  intros prefix layout nvals data s Hwf.
+  pose proof (kf_decode_original_spec prefix layout nvals data s Hwf) as H.
+  destruct (kf_decode_original prefix layout nvals data s) as [[r|e|] s1]; cbn [fst] in *.
+  - split; [discriminate|tauto].
+  - contradiction.
+  - tauto.
+Qed.
+
+(* the statement "Decode never panics on a well-typed call" was FALSE before the fix *)
+Lemma keyformat_decode_original_total_refuted_l :
+  exists prefix layout nvals data,
+    wf_layout layout /\ nvals <= N.of_nat (length layout) /\
+    fst (run (kf_decode_original prefix layout nvals data)) = Panic.
+Proof.
+  (* txnKeyFmt = 'T' hash kind, key = "T" *)
+  exists 84, [EBin 32 0; EBin 1 2], 2, [84]. split; [unfold wf_layout; cbn; lia|].
+  split; [cbn; lia|]. vm_compute. reflexivity.
+Qed.
+
+(* ---------- the function as of the pinned tree ---------- *)
+Definition kf_panics (prefix : N) (layout : list elem) (nvals : N) (data : bytes) : Prop :=
+  data <> [] /\ nth 0 data 0 = prefix /\ N.of_nat (length layout) < nvals.
+
+Lemma kf_decode_spec prefix layout nvals data s : wf_layout layout ->
+  match kf_decode prefix layout nvals data s with
+  | (Ok _, s') => ~ kf_panics prefix layout nvals data /\ s' <= s + glen data
+  | (Err _, _) => False
+  | (Panic, _) => kf_panics prefix layout nvals data
+  end.
+Proof.
+  intros Hwf. unfold kf_decode, kf_panics.
+  destruct (glen data =? 0) eqn:H0.
+  - cbn. split; [|lia]. intros (Hne & _). apply Hne.
+    destruct data; [reflexivity|rewrite glen_cons in H0; lia].
+  - assert (1 <= glen data) as Hlen by lia.
+    assert (data <> []) as Hne by (intros ->; cbn in H0; discriminate).
+    rewrite index_ok by lia. rewrite bind_lift_ok.
+    change (N.to_nat 0) with 0%nat.
+    destruct (nth 0 data 0 =? prefix) eqn:Hp; cbn [negb].
+    + apply N.eqb_eq in Hp.
+      destruct (N.of_nat (length layout) <? nvals) eqn:Hn; [cbn; repeat split; [exact Hne|exact Hp|lia]|].
+      destruct (glen data <? kf_size layout) eqn:Hs; [cbn; split; [intros (_ & _ & H); lia|lia]|].
+      pose proof (elems_ok layout nvals data s Hwf Hn Hs) as HE.
+      destruct (kf_elems (firstn (N.to_nat nvals) layout) data (kf_size layout) 1 s) as [[r|x|] s1];
+        try contradiction.
+      split; [intros (_ & _ & H); lia|exact HE].
+    + cbn. split; [|lia]. apply N.eqb_neq in Hp. intros (_ & Hq & _). contradiction.
+Qed.
+
+(* after the fix Decode panics EXACTLY when the caller passes more values than the
+   layout has (and the key is non-empty with a matching prefix) *)
 Lemma keyformat_decode_panics_iff_l : forall prefix layout nvals data s, wf_layout layout ->
   (fst (kf_decode prefix layout nvals data s) = Panic <-> kf_panics prefix layout nvals data).
 Proof.
@@ -143,6 +208,16 @@ Proof.
   - split; [discriminate|tauto].
   - contradiction.
   - tauto.
+Qed.
+
+(* well-typed calls (no more values than layout elements) never panic, for EVERY key *)
+Lemma keyformat_decode_total_l : forall prefix layout nvals data s, wf_layout layout ->
+  nvals <= N.of_nat (length layout) ->
+  fst (kf_decode prefix layout nvals data s) <> Panic.
+Proof.
+  intros prefix layout nvals data s Hwf Hn E.
+  apply (keyformat_decode_panics_iff_l prefix layout nvals data s Hwf) in E.
+  destruct E as (_ & _ & H). lia.
 Qed.
 
 Lemma keyformat_decode_bounded_l : forall prefix layout nvals data s, wf_layout layout ->
@@ -155,19 +230,12 @@ Proof.
     [split; [tauto|discriminate] | contradiction | congruence].
 Qed.
 
-(* the statement "Decode never panics" is FALSE for the code as written *)
-Lemma keyformat_decode_total_refuted_l :
-  exists prefix layout nvals data,
-    wf_layout layout /\ fst (run (kf_decode prefix layout nvals data)) = Panic.
-Proof.
-  (* txnKeyFmt = 'T' hash kind, key = "T" *)
-  exists 84, [EBin 32 0; EBin 1 2], 2, [84]. split; [unfold wf_layout; cbn; lia|].
-  vm_compute. reflexivity.
-Qed.
-
-Example keyformat_empty_key_panics :
-  fst (run (kf_decode 84 [EBin 32 0; EBin 1 2] 2 [])) = Panic.
-Proof. vm_compute. reflexivity. Qed.
+Example keyformat_short_keys :
+  fst (run (kf_decode_original 84 [EBin 32 0; EBin 1 2] 2 [])) = Panic /\
+  fst (run (kf_decode 84 [EBin 32 0; EBin 1 2] 2 [])) = Ok None /\
+  fst (run (kf_decode 84 [EBin 32 0; EBin 1 2] 2 [84])) = Ok None /\
+  fst (run (kf_decode 84 [EBin 32 0; EBin 1 2] 3 [84])) = Panic.
+Proof. repeat split; vm_compute; reflexivity. Qed.
 
 Example keyformat_decodes :
   fst (run (kf_decode 69 [EVar; EBin 2 0] 2 [69; 1; 2; 3; 9; 9]))
